@@ -17,13 +17,13 @@ pub const CANARY_BYTE: u8 = 0xEE;
 /// content of the not-yet-owned part `[orig, orig+10240)` of a guard-backed buffer
 pub const UNOWNED_BYTE: u8 = 0xC3;
 
-enum Backing {
+enum Store {
     Vec(#[allow(dead_code)] Vec<u8>),
     Guard(GuardBuf),
 }
 
 pub struct Access {
-    backing: Backing,
+    backing: Store,
     base: *mut u8,
     len: Cell<usize>,
     pub orig: usize,
@@ -62,7 +62,7 @@ impl Access {
             *b = CANARY_BYTE;
         }
         let base = unsafe { v.as_mut_ptr().add(FRONT) };
-        Access::with(Backing::Vec(v), base, orig, refuse)
+        Access::with(Store::Vec(v), base, orig, refuse)
     }
 
     /// Guard-page backed (C03). `end_aligned`: the allocation end sits directly before a PROT_NONE page,
@@ -89,10 +89,10 @@ impl Access {
                 *base.add(cap + i) = b"NEXT-ACCOUNT-IMAGE/"[i % 19] ^ ((i / 19) as u8).wrapping_mul(41);
             }
         }
-        Access::with(Backing::Guard(g), base, orig, refuse)
+        Access::with(Store::Guard(g), base, orig, refuse)
     }
 
-    fn with(backing: Backing, base: *mut u8, orig: usize, refuse: Vec<u32>) -> Access {
+    fn with(backing: Store, base: *mut u8, orig: usize, refuse: Vec<u32>) -> Access {
         Access {
             backing,
             base,
@@ -124,20 +124,20 @@ impl Access {
     }
     fn slack(&self) -> (&[u8], &[u8]) {
         match &self.backing {
-            Backing::Vec(_) => unsafe {
+            Store::Vec(_) => unsafe {
                 (std::slice::from_raw_parts(self.base().sub(FRONT), FRONT), std::slice::from_raw_parts(self.base().add(self.cap()), CANARY))
             },
-            Backing::Guard(g) => g.slack(),
+            Store::Guard(g) => g.slack(),
         }
     }
     pub fn canary_ok(&self) -> bool {
         match &self.backing {
-            Backing::Vec(_) => {
+            Store::Vec(_) => {
                 let (f, s) = self.slack();
                 s.iter().all(|b| *b == CANARY_BYTE) && f.iter().all(|b| *b == CANARY_BYTE)
             }
             // guard-backed buffers are checked through `Frame`
-            Backing::Guard(_) => true,
+            Store::Guard(_) => true,
         }
     }
     pub fn snapshot(&self) -> Frame {
@@ -200,5 +200,235 @@ unsafe impl UnsizedTypeDataAccess for Access {
         let ptr: *mut [u8] = std::ptr::slice_from_raw_parts_mut(this.base(), this.len.get());
         let start = this.base() as usize;
         Ok((ptr, start..start + this.cap(), Box::new(Guard)))
+    }
+}
+
+
+// ------------------------------------------------------------------------------------------------
+// what the case driver needs from a backing store
+
+pub trait Backing: 'static {
+    /// the data access object handed to the wrappers
+    type A: UnsizedTypeDataAccess + 'static;
+    /// a fresh `SharedWrapper` can be taken while exclusive accessors are live
+    const SHARED_WHILE_EXCLUSIVE: bool;
+    fn create(initial: &[u8], refuse: Vec<u32>, guard: bool, end_aligned: bool) -> Option<Box<Self>>;
+    fn da(&self) -> &Self::A;
+    fn len(&self) -> usize;
+    fn cap(&self) -> usize;
+    fn base_addr(&self) -> usize;
+    fn bytes(&self) -> Vec<u8>;
+    fn begin_op(&self);
+    /// called with the op's raw trace (C03) so that backings without their own log can derive the flags
+    fn note_trace(&self, _reallocs: &[(usize, usize)]) {}
+    fn refused_now(&self) -> bool;
+    fn limit_now(&self) -> bool;
+    fn reallocs_now(&self) -> u32;
+    fn grow_calls(&self) -> u32;
+    /// (old_len, new_len, succeeded) of every realloc call of the op
+    fn realloc_log(&self) -> Vec<(usize, usize, bool)>;
+    fn snapshot(&self) -> Frame;
+    fn frame_ok(&self, snap: &Frame, from: usize) -> bool;
+    fn canary_ok(&self) -> bool;
+}
+
+impl Backing for Access {
+    type A = Access;
+    const SHARED_WHILE_EXCLUSIVE: bool = true;
+    fn create(initial: &[u8], refuse: Vec<u32>, guard: bool, end_aligned: bool) -> Option<Box<Self>> {
+        Some(Box::new(if guard { Access::new_guard(initial, refuse, end_aligned) } else { Access::new(initial, refuse) }))
+    }
+    fn da(&self) -> &Access {
+        self
+    }
+    fn len(&self) -> usize {
+        Access::len(self)
+    }
+    fn cap(&self) -> usize {
+        Access::cap(self)
+    }
+    fn base_addr(&self) -> usize {
+        Access::base_addr(self)
+    }
+    fn bytes(&self) -> Vec<u8> {
+        Access::bytes(self)
+    }
+    fn begin_op(&self) {
+        Access::begin_op(self)
+    }
+    fn refused_now(&self) -> bool {
+        self.refused_now.get()
+    }
+    fn limit_now(&self) -> bool {
+        self.limit_now.get()
+    }
+    fn reallocs_now(&self) -> u32 {
+        self.reallocs_now.get()
+    }
+    fn grow_calls(&self) -> u32 {
+        self.grow_calls.get()
+    }
+    fn realloc_log(&self) -> Vec<(usize, usize, bool)> {
+        self.realloc_log.borrow().clone()
+    }
+    fn snapshot(&self) -> Frame {
+        Access::snapshot(self)
+    }
+    fn frame_ok(&self, snap: &Frame, from: usize) -> bool {
+        Access::frame_ok(self, snap, from)
+    }
+    fn canary_ok(&self) -> bool {
+        Access::canary_ok(self)
+    }
+}
+
+// ------------------------------------------------------------------------------------------------
+// a NATIVE ACCOUNT as backing store: exercises `impl UnsizedTypeDataAccess for AccountInfo` (wrapper.rs)
+
+use hx_native::{key_from, AcctSpec, World, STATIC_ACCOUNT_DATA};
+use star_frame::prelude::AccountInfo;
+
+/// Serialized runtime input with three accounts: a predecessor, the account under test, and a canary
+/// account right behind it (its header + data are the "next account image"). The refusal of growth comes
+/// from the real `AccountInfo::resize_unchecked` limit (`orig + 10240`); there is no schedule.
+pub struct AcctBacking {
+    world: World,
+    orig: usize,
+    /// start of the whole input buffer and its length
+    buf_base: *const u8,
+    buf_len: usize,
+    /// offset of the account's data within the buffer
+    data_off: usize,
+    limit_now: Cell<bool>,
+    reallocs_now: Cell<u32>,
+    grow_calls: Cell<u32>,
+    log: RefCell<Vec<(usize, usize, bool)>>,
+}
+
+const PREV_DATA: usize = 37;
+const NEXT_DATA: usize = 300;
+
+fn acct_span(data_len: usize) -> usize {
+    let mut n = STATIC_ACCOUNT_DATA + data_len + MAX_INCREASE;
+    n = n.div_ceil(8) * 8;
+    n + 8
+}
+
+impl AcctBacking {
+    fn whole(&self) -> &[u8] {
+        unsafe { std::slice::from_raw_parts(self.buf_base, self.buf_len) }
+    }
+}
+
+impl Backing for AcctBacking {
+    type A = AccountInfo;
+    const SHARED_WHILE_EXCLUSIVE: bool = false;
+    fn create(initial: &[u8], refuse: Vec<u32>, _guard: bool, _end_aligned: bool) -> Option<Box<Self>> {
+        if !refuse.is_empty() {
+            // a real account cannot refuse by schedule
+            return None;
+        }
+        let owner = key_from(99);
+        let prev: Vec<u8> = (0..PREV_DATA).map(|i| (i as u8).wrapping_mul(29) ^ 0xA5).collect();
+        let next: Vec<u8> = (0..NEXT_DATA).map(|i| b"NEXT-ACCOUNT-DATA/"[i % 18] ^ ((i / 18) as u8).wrapping_mul(41)).collect();
+        let specs = [
+            AcctSpec::new(key_from(1), owner).data(prev).lamports(11).writable(true),
+            AcctSpec::new(key_from(2), owner).data(initial.to_vec()).lamports(22).writable(true),
+            AcctSpec::new(key_from(3), owner).data(next).lamports(33).writable(true),
+        ];
+        let world = World::new(&specs);
+        let orig = initial.len();
+        // layout of hx_native::World::with_ix: n(8), then per account header(88) data pad(10240) align(8) rent_epoch(8), ix len(8), program id(32)
+        let data_off = 8 + acct_span(PREV_DATA) + STATIC_ACCOUNT_DATA;
+        let buf_len = 8 + acct_span(PREV_DATA) + acct_span(orig) + acct_span(NEXT_DATA) + 8 + 32;
+        let region = world.raw_region(1).as_ptr();
+        let buf_base = unsafe { region.sub(data_off) };
+        // cross-check the layout assumption against the World's own view of account 0
+        if world.raw_region(0).as_ptr() as usize != buf_base as usize + 8 + STATIC_ACCOUNT_DATA {
+            return None;
+        }
+        Some(Box::new(AcctBacking {
+            world,
+            orig,
+            buf_base,
+            buf_len,
+            data_off,
+            limit_now: Cell::new(false),
+            reallocs_now: Cell::new(0),
+            grow_calls: Cell::new(0),
+            log: RefCell::new(vec![]),
+        }))
+    }
+    fn da(&self) -> &AccountInfo {
+        self.world.info(1)
+    }
+    fn len(&self) -> usize {
+        self.world.info(1).data_len()
+    }
+    fn cap(&self) -> usize {
+        self.orig + MAX_INCREASE
+    }
+    fn base_addr(&self) -> usize {
+        self.buf_base as usize + self.data_off
+    }
+    fn bytes(&self) -> Vec<u8> {
+        let n = self.len().min(self.cap());
+        self.whole()[self.data_off..self.data_off + n].to_vec()
+    }
+    fn begin_op(&self) {
+        self.limit_now.set(false);
+        self.reallocs_now.set(0);
+        self.log.borrow_mut().clear();
+    }
+    fn note_trace(&self, reallocs: &[(usize, usize)]) {
+        // AccountInfo::resize_unchecked: Err iff the accumulated delta exceeds 10240 (or new_len > i32::MAX)
+        let mut log = self.log.borrow_mut();
+        for (old, new) in reallocs {
+            let ok = *new <= self.cap() && *new <= i32::MAX as usize;
+            if new > old {
+                self.grow_calls.set(self.grow_calls.get() + 1);
+                if !ok {
+                    self.limit_now.set(true);
+                }
+            }
+            if ok && new != old {
+                self.reallocs_now.set(self.reallocs_now.get() + 1);
+            }
+            log.push((*old, *new, ok));
+        }
+    }
+    fn refused_now(&self) -> bool {
+        false
+    }
+    fn limit_now(&self) -> bool {
+        self.limit_now.get()
+    }
+    fn reallocs_now(&self) -> u32 {
+        self.reallocs_now.get()
+    }
+    fn grow_calls(&self) -> u32 {
+        self.grow_calls.get()
+    }
+    fn realloc_log(&self) -> Vec<(usize, usize, bool)> {
+        self.log.borrow().clone()
+    }
+    fn snapshot(&self) -> Frame {
+        Frame { alloc: self.whole().to_vec(), before: vec![], after: vec![] }
+    }
+    /// Everything in the input buffer outside the account's `[data, data + from)` must be unchanged, except
+    /// the account's own borrow-state byte, `resize_delta` and `data_len` header fields.
+    fn frame_ok(&self, snap: &Frame, from: usize) -> bool {
+        let now = self.whole();
+        let hdr = self.data_off - STATIC_ACCOUNT_DATA;
+        let from = from.min(self.cap());
+        let mut ok = now[..hdr] == snap.alloc[..hdr];
+        // header: [0] borrow state, [1..4] flags, [4..8] resize_delta, [8..80] key/owner/lamports, [80..88] data_len
+        ok &= now[hdr + 1..hdr + 4] == snap.alloc[hdr + 1..hdr + 4];
+        ok &= now[hdr + 8..hdr + 80] == snap.alloc[hdr + 8..hdr + 80];
+        ok &= now[self.data_off + from..] == snap.alloc[self.data_off + from..];
+        ok
+    }
+    fn canary_ok(&self) -> bool {
+        true
     }
 }
